@@ -43,6 +43,8 @@ var Deviants = []string{
 	// errors of the right kind and path that are not the typed error itself, wrong names on handles
 	"open-err-wrapped", "mkdir-err-wrapped", "remove-err-wrapped", "rename-err-wrapped",
 	"filestat-wrong-name", "filestat-wrong-name-nested", "filestat-wrong-kind", "filestat-wrong-perm",
+	// entries of a paged directory read (ReadDir(n > 0) on a handle) whose own methods are wrong while Info() is right
+	"readdir-paged-entry-wrong-kind", "readdir-paged-entry-wrong-name",
 }
 
 // Fired counts, per deviant, how often its deviation actually changed what a call did or returned.
@@ -616,6 +618,14 @@ type dirEntry struct {
 	dir bool
 }
 
+// namedEntry answers a wrong Name() while Info() still names the entry correctly
+type namedEntry struct {
+	hackpadfs.DirEntry
+	name string
+}
+
+func (d namedEntry) Name() string { return d.name }
+
 func (d dirEntry) IsDir() bool { return d.dir }
 func (d dirEntry) Type() hackpadfs.FileMode {
 	if d.dir {
@@ -642,6 +652,12 @@ func (f *File) ReadDir(n int) ([]hackpadfs.DirEntry, error) {
 	case f.is("readdir-wrong-kind") && len(ents) > 0:
 		fire(f.fs.D)
 		ents[0] = dirEntry{ents[0], !ents[0].IsDir()}
+	case f.is("readdir-paged-entry-wrong-kind") && n > 0 && len(ents) > 0:
+		fire(f.fs.D)
+		ents[0] = dirEntry{ents[0], !ents[0].IsDir()}
+	case f.is("readdir-paged-entry-wrong-name") && n > 0 && len(ents) > 0:
+		fire(f.fs.D)
+		ents[0] = namedEntry{ents[0], ents[0].Name() + "x"}
 	}
 	return ents, err
 }
